@@ -110,12 +110,17 @@ pub fn new(parameters: &RawParameters, _ctx: &dyn Context) -> Result<Op, Error> 
     let def = &parameters.definition;
     let mut params = ParsedParameters::new(parameters, &GAMUT)?;
 
-    let ellps_0 = params.ellps(0);
-    let ellps_1 = params.ellps(1);
-
     // We may use `ellps, da, df`, to parameterize the op, but `ellps_0, ellps_1`
     // is a more likely set of parameters to come across in real life.
     if params.given.contains_key("ellps_0") && params.given.contains_key("ellps_1") {
+        // Then `ellps_0` is the ellipsoid we work on: the default value of `ellps`
+        // must not take precedence over it
+        if !params.given.contains_key("ellps") {
+            let ellps_0 = params.text("ellps_0")?;
+            params.text.insert("ellps", ellps_0);
+        }
+        let ellps_0 = params.ellps(0);
+        let ellps_1 = params.ellps(1);
         let da = ellps_1.semimajor_axis() - ellps_0.semimajor_axis();
         let df = ellps_1.flattening() - ellps_0.flattening();
         params.real.insert("da", da);
